@@ -257,18 +257,32 @@ class ClassInfo:
         self.assigns = {}  # class-level name -> ast expr
 
     def mro(self):
-        out, seen = [], set()
+        """C3 linearisation over the package classes (external bases contribute no analysable methods and are left out)."""
+        memo = {}
 
-        def go(c):
-            if c.qualname in seen:
-                return
-            seen.add(c.qualname)
-            out.append(c)
-            for b in c.bases:
-                go(b)
+        def lin(c, stack=()):
+            if c.qualname in memo:
+                return memo[c.qualname]
+            if c.qualname in stack:
+                return [c]
+            seqs = [lin(b, stack + (c.qualname,))[:] for b in c.bases] + [list(c.bases)]
+            out = [c]
+            while any(seqs):
+                seqs = [q for q in seqs if q]
+                head = None
+                for q in seqs:
+                    cand = q[0]
+                    if not any(cand in r[1:] for r in seqs):
+                        head = cand
+                        break
+                if head is None:  # inconsistent hierarchy (Python would refuse it): fall back to depth-first order
+                    head = seqs[0][0]
+                out.append(head)
+                seqs = [[x for x in q if x is not head] for q in seqs]
+            memo[c.qualname] = out
+            return out
 
-        go(self)
-        return out
+        return lin(self)
 
     def find_method(self, name):
         for c in self.mro():
@@ -535,8 +549,18 @@ class Program:
             return
         all_ref_func_names = {a["name"] for a in ref}
         cands = [f for f in self.functions.values() if (f.cls.name if f.cls else None, f.name) not in ref_names and f.name not in all_ref_func_names]
+        def old_name_still_bound(a, f):
+            # a rename leaves the old name unbound; when the old name is still bound (assigned, imported, a class attribute)
+            # the code that uses it gets that object, not the look-alike function
+            if f.cls is not None:
+                return a["name"] in f.cls.assigns
+            m = f.module
+            return a["name"] in m.assigns or a["name"] in m.imports or a["name"] in m.classes
+
         def sim(a, f):
             if (f.cls.name if f.cls else None) != a["cls"] or len(f.params) != a["nparams"]:
+                return 0.0
+            if old_name_still_bound(a, f):
                 return 0.0
             ff = set(_fingerprint(f))
             fr = set(a["features"])
